@@ -198,6 +198,10 @@ def run_check(prop, tier, seed, replay=None):
     except build.BuildError as e:
         broken.append({"kind": "translator", "what": e.what, "log": e.log[-4000:]})
     try:
+        build.regenerate_tables()
+    except build.BuildError as e:
+        broken.append({"kind": "translator", "what": e.what, "log": e.log[-4000:]})
+    try:
         exe = build.build_harness("exec")
     except build.BuildError as e:
         broken.append({"kind": "harness", "what": e.what, "log": e.log[-4000:]})
@@ -496,6 +500,7 @@ def main(argv, props):
         t0 = time.time()
         try:
             build.regenerate_consts()
+            build.regenerate_tables()
             build.build_harness("exec")
             from . import statics
             statics.generate()
